@@ -8,6 +8,9 @@
 #include "verif.hpp"
 
 #include <fcppt/literal.hpp>
+#include <fcppt/algorithm/join_strings.hpp>
+#include <fcppt/math/interval_distance.hpp>
+#include <fcppt/tuple/make.hpp>
 #include <fcppt/cast/int_to_float_fun.hpp>
 #include <fcppt/cast/size_fun.hpp>
 #include <fcppt/cast/static_cast_fun.hpp>
@@ -63,6 +66,8 @@
 #include <limits>
 #include <stdexcept>
 #include <string>
+#include <algorithm>
+#include <list>
 #include <type_traits>
 #include <typeinfo>
 #include <vector>
@@ -389,4 +394,84 @@ Reg const r_grid{"grid_interpolate", Kind::exhaustive, "the position lies on a g
                  },
                  [](Ints const &c) { grid_interp_one(static_cast<std::size_t>(c.at(0)), static_cast<std::size_t>(c.at(1)), static_cast<int>(c.at(2) % 1000), static_cast<int>(c.at(3) % 1000), static_cast<int>(c.at(4) % 1000)); },
                  [](Ints const &c) { return "grid::interpolate (1d, 2d, 3d, float) in a grid of " + std::to_string(2 + static_cast<u64>(c.at(0)) % 3) + "x" + std::to_string(2 + static_cast<u64>(c.at(1)) % 3) + " nodes at quarter position (" + std::to_string(c.at(2)) + "/4," + std::to_string(c.at(3)) + "/4) (reduced modulo the valid range), node seed " + std::to_string(c.at(4)); }};
+
+// ---------------------------------------------------------------------------- algorithm::join_strings
+// every range of 0..3 strings with every delimiter is a legal argument (totality; the value is C16's)
+void join_strings_one(std::size_t n, std::size_t code, std::size_t d)
+{
+  static char const *const words[] = {"", "a", "bc"};
+  static char const *const delims[] = {"", ",", "ab"};
+  n %= 4; d %= 3;
+  count(n == 0 || d == 0);
+  std::vector<std::string> v;
+  for (std::size_t i = 0; i < n; ++i) { v.push_back(words[code % 3]); code /= 3; }
+  std::list<std::string> const l(v.begin(), v.end());
+  total("algorithm::join_strings", [&] {
+    touch(fcppt::algorithm::join_strings(v, std::string(delims[d])));
+    touch(fcppt::algorithm::join_strings(l, std::string(delims[d])));
+    std::vector<std::wstring> wv;
+    for (std::string const &x : v) wv.push_back(std::wstring(x.begin(), x.end()));
+    std::string const dl = delims[d];
+    touch(fcppt::algorithm::join_strings(wv, std::wstring(dl.begin(), dl.end())));
+  });
+}
+Reg const r_join_strings{"join_strings_small_ranges", Kind::exhaustive, "the range or the delimiter is empty",
+                         [] { for (i64 n = 0; n < 4; ++n) for (i64 code = 0; code < 27; ++code) for (i64 d = 0; d < 3; ++d) { cur3(n, code, d); join_strings_one(static_cast<std::size_t>(n), static_cast<std::size_t>(code), static_cast<std::size_t>(d)); } },
+                         [](Ints const &c) { join_strings_one(static_cast<std::size_t>(static_cast<u64>(c.at(0))), static_cast<std::size_t>(static_cast<u64>(c.at(1))), static_cast<std::size_t>(static_cast<u64>(c.at(2)))); },
+                         [](Ints const &c) { return "join_strings of " + std::to_string(static_cast<u64>(c.at(0)) % 4) + " strings (code " + std::to_string(static_cast<u64>(c.at(1))) + " over {\"\",a,bc}) with delimiter #" + std::to_string(static_cast<u64>(c.at(2)) % 3) + " of {\"\", \",\", ab}"; }};
+
+// ---------------------------------------------------------------------------- math::interval_distance
+// Two intervals [a1,b1], [a2,b2] (a <= b) with end points on the boundary lattice of int / long long.
+// The exact distance (documentation: the gap, minus the overlap, or minus the shorter part of the
+// outer interval when one contains the other) is computed in 128 bits; the call is made when it is
+// representable. One class of such inputs was a genuine defect (fix 44890cc): in the containment
+// branch the implementation evaluated BOTH parts of the outer interval before taking the maximum, and
+// the longer, unselected part overflowed although the result - the shorter part - is representable,
+// e.g. outer [INT_MIN, 2], inner [INT_MIN+1, INT_MIN+1]. The known()-guard stays as the mechanism to
+// exclude the class by construction should it ever have to be listed again.
+char const *const key_interval_containment = "math::interval_distance|containment|unselected-part-overflows";
+template <typename T>
+void interval_distance_one(std::size_t ia1, std::size_t ib1, std::size_t ia2, std::size_t ib2)
+{
+  using i128 = __int128;
+  static T const lat[] = {std::numeric_limits<T>::min(), static_cast<T>(std::numeric_limits<T>::min() + 1), static_cast<T>(std::numeric_limits<T>::min() / 2), -2, -1, 0, 1, 2, 5, 6,
+                          static_cast<T>(std::numeric_limits<T>::max() / 2), static_cast<T>(std::numeric_limits<T>::max() - 1), std::numeric_limits<T>::max()};
+  constexpr std::size_t n = sizeof(lat) / sizeof(lat[0]);
+  T a1 = lat[ia1 % n], b1 = lat[ib1 % n], a2 = lat[ia2 % n], b2 = lat[ib2 % n];
+  if (b1 < a1) std::swap(a1, b1);
+  if (b2 < a2) std::swap(a2, b2);
+  // the exact result, following the documentation
+  i128 f1 = a1, s1 = b1, f2 = a2, s2 = b2;
+  if (s1 <= s2) { std::swap(f1, f2); std::swap(s1, s2); }
+  bool const containment = !(f2 <= f1);
+  i128 const p1 = s2 - s1, p2 = f1 - f2;
+  i128 const exact = containment ? std::max(p1, p2) : f1 - s2;
+  auto const fits = [](i128 v) { return v >= static_cast<i128>(std::numeric_limits<T>::min()) && v <= static_cast<i128>(std::numeric_limits<T>::max()); };
+  count(true);
+  if (!fits(exact)) { skip(); return; }
+  if (containment && !(fits(p1) && fits(p2)))
+  {
+    if (known(key_interval_containment)) return;
+  }
+  total("math::interval_distance", [&] {
+    T const r = fcppt::math::interval_distance(fcppt::tuple::make(a1, b1), fcppt::tuple::make(a2, b2));
+    touch(r);
+    if (static_cast<i128>(r) != exact) fail("math::interval_distance|value", "differs from the documented distance");
+  });
+}
+Reg const r_interval_distance{"interval_distance_lattice", Kind::exhaustive, "every case (end points on the boundary lattice)",
+                              [] {
+                                for (i64 t = 0; t < 2; ++t)
+                                  for (i64 a = 0; a < 13; ++a) for (i64 b = a; b < 13; ++b) for (i64 c = 0; c < 13; ++c) for (i64 d = c; d < 13; ++d)
+                                  {
+                                    cur({t, a, b, c, d});
+                                    if (t == 0) interval_distance_one<int>(static_cast<std::size_t>(a), static_cast<std::size_t>(b), static_cast<std::size_t>(c), static_cast<std::size_t>(d));
+                                    else interval_distance_one<long long>(static_cast<std::size_t>(a), static_cast<std::size_t>(b), static_cast<std::size_t>(c), static_cast<std::size_t>(d));
+                                  }
+                              },
+                              [](Ints const &c) {
+                                if (c.at(0) % 2 == 0) interval_distance_one<int>(static_cast<std::size_t>(static_cast<u64>(c.at(1))), static_cast<std::size_t>(static_cast<u64>(c.at(2))), static_cast<std::size_t>(static_cast<u64>(c.at(3))), static_cast<std::size_t>(static_cast<u64>(c.at(4))));
+                                else interval_distance_one<long long>(static_cast<std::size_t>(static_cast<u64>(c.at(1))), static_cast<std::size_t>(static_cast<u64>(c.at(2))), static_cast<std::size_t>(static_cast<u64>(c.at(3))), static_cast<std::size_t>(static_cast<u64>(c.at(4))));
+                              },
+                              [](Ints const &c) { return std::string("interval_distance<") + (c.at(0) % 2 == 0 ? "int" : "long long") + "> of the intervals with lattice indices [" + std::to_string(c.at(1)) + "," + std::to_string(c.at(2)) + "] and [" + std::to_string(c.at(3)) + "," + std::to_string(c.at(4)) + "] (lattice: min, min+1, min/2, -2, -1, 0, 1, 2, 5, 6, max/2, max-1, max)"; }};
 }
